@@ -262,6 +262,8 @@ func (s *linState) free(i int) {
 			}
 		}
 		verifAssert("C06/linear/free-leaves-others-untouched", ok)
+		_, still := regionByUD(after.regs, g.ud)
+		verifAssert("C06/linear/freed-allocation-is-gone", !still)
 	}
 }
 
@@ -350,6 +352,7 @@ func (s *linState) recipeFree(i int) {
 //	cfg 2: ring buffer L3(3, j, m): 3 lower allocations, free the first j in {1,2}, m in {2,3,4} wrap-around allocations
 //	cfg 3: double stack L2(2, 2): 2 lower + 2 upper allocations
 //	cfg 4: stack L1(4) with the two middle entries freed (null items in the middle of the first vector)
+//	cfg 7: small ring buffer L3(2,1,2)
 //	cfg 5/6: compaction family (36 entries in the first vector, 21 freed in the middle; 5 = with an upper stack)
 func linearHistory(prop int, cfg int) {
 	B := 100
@@ -376,6 +379,17 @@ func linearHistory(prop int, cfg int) {
 		for i := 0; i < mm; i++ {
 			s.recipeAlloc(false, i == 1, AllocationRequestEndOf2nd)
 		}
+		K = 2
+		if verifTier() == 1 {
+			K = 3
+		}
+	case 7:
+		// small ring buffer L3(2,1,2): two lower allocations, the first one freed, two wrapped-around allocations
+		s.recipeAlloc(false, false, AllocationRequestEndOf1st)
+		s.recipeAlloc(false, false, AllocationRequestEndOf1st)
+		s.recipeFree(0)
+		s.recipeAlloc(false, false, AllocationRequestEndOf2nd)
+		s.recipeAlloc(false, true, AllocationRequestEndOf2nd)
 		K = 2
 		if verifTier() == 1 {
 			K = 3
@@ -425,7 +439,17 @@ func linearHistory(prop int, cfg int) {
 			K = 2
 		}
 	}
-	if cfg >= 2 {
+	// The region-enumerating oracles (C01, C03) fork on every possible gap between allocations; instead of
+	// evaluating them after every step of one long history they are evaluated at the end of histories of every
+	// length 0..K (each intermediate state of a history is the final state of a shorter one).
+	endOnly := prop == pC01 || prop == pC03
+	if endOnly {
+		lo := 1
+		if cfg >= 2 {
+			lo = 0
+		}
+		K = lo + verifChoice("historyLength", K-lo+1)
+	} else if cfg >= 2 {
 		s.check("after-recipe")
 	}
 	for step := 0; step < K; step++ {
@@ -443,6 +467,11 @@ func linearHistory(prop int, cfg int) {
 		case 2:
 			s.free(verifChoice("victim", len(s.live)))
 		}
+		if !endOnly {
+			s.check("after-step")
+		}
+	}
+	if endOnly {
 		s.check("after-step")
 	}
 	if prop == pC06 || prop == pC18 {
